@@ -25,4 +25,6 @@ def obligations(tier):
             if q and st and part != 0:
                 continue
             L.append(ob("wide/part=%d/stringify=%d" % (part, st), ".", "VerifC04Wide", [part, st], covers=["decoded"], solver="cvc5-int", timeout_ms=60000, max_seconds=1200))
+    for opt in range(4):
+        L.append(ob("bytes-options/opt=%d" % opt, ".", "VerifC04BytesOptions", [opt], covers=["decoded"], max_seconds=600))
     return L
